@@ -4857,8 +4857,12 @@ class FST:
 
                     continue
 
-                if not allow_exact and same_ln and same_end_ln and fcol == col and fend_col == end_col:
-                    return self
+                if same_ln and same_end_ln and fcol == col and fend_col == end_col:
+                    if not allow_exact:
+                        return self
+
+                    if allow_exact == 'top':  # first exact match on the way down is the highest one
+                        return f
 
                 self = f
 
